@@ -77,6 +77,11 @@ CLAIMED = {
         engine="sim-conf", level="exploration", ref="DESIGN.md §6 C17 (conformance tier)",
         technique="deterministic simulation, fault-free conformance tier: seeded catalog programs against a name -> (kind, types, contents) model",
         text="Seeded generation of open/create/rename/delete/list programs on tables and multimaps with colliding names and deliberately wrong kinds and types, interleaved with data operations, handle drops, abort and reopen; every result including the error variant equals the model."),
+    "C19": dict(
+        engine="sim-compat", level="exploration", ref="DESIGN.md §6 C19",
+        technique="deterministic simulation: two real implementations (the working tree and the released redb 3.0.0 from the offline cargo cache) alternate on one simulated disk, handing over clean-closed and crash-recovered files, against the reference model",
+        text="Direction 1: seeded histories written by the working tree (4 KiB pages, the geometry both releases produce; variable-width keys with shortened routing keys, multimaps with subtrees, persistent savepoints, non-durable commits, compaction) are handed to redb 3.0.0 after a clean close and after this code recovered one of its own crash images; 3.0.0 must open them, pass its check_integrity(), read contents and savepoint list equal to the model, and after 3.0.0 has written to the file the working tree must read everything back and pass its own check. Direction 2: a reduced interpreter runs the same plans through the 3.0.0 API; its clean-closed files and the files 3.0.0 recovered from its own crash images must open in the working tree with model-equal contents, restorable savepoints and check_integrity() == Ok(true).",
+        note="Trusted base: harness, reference model; redb 3.0.0 is the released crate, unmodified. Page size 4096 and default region size only. An Ok(false) from 3.0.0's check_integrity() is not counted when 3.0.0's own open had grown the file without committing (a defect of 3.0.0 that shows on files it wrote itself, see DESIGN.md corrections). Table deletion is not exercised through the 3.0.0 writer (3.0.0 panics on create+delete in one transaction). Sampling."),
     "C20": dict(
         engine="sim-conf", level="exploration", ref="DESIGN.md §6 C20",
         technique="deterministic simulation: contract monitor inside the simulated storage backend over seeded lifecycle histories",
@@ -85,7 +90,6 @@ CLAIMED = {
 
 NOT_YET = {
     "C18": "check not built yet (experimental_cursor feature build of the conformance tier); no claim is made until it exists",
-    "C19": "check not built yet (two implementations on one simulated disk); no claim is made until it exists",
 }
 
 NA = {
@@ -135,6 +139,8 @@ manifest = {
          "kind_free_text": "real redb (copy of /repo/src, sync.rs replaced by shuttle primitives) with client tasks under seeded stall / random / PCT schedulers; replay = same plan + scheduler seed, schedule hash compared"},
         {"name": "sim-corrupt", "path": "/verif/sim", "serves_properties": ["C12"],
          "kind_free_text": "the same simulator (release build without debug assertions) with stored-byte corruption of closed images"},
+        {"name": "sim-compat", "path": "/verif/sim", "serves_properties": ["C19"],
+         "kind_free_text": "the simulator with redb 3.0.0 (released crate, offline cache) linked as a second implementation on the same SimDisk"},
         {"name": "sim-crash", "path": "/verif/sim", "serves_properties": [p for p in sorted(CLAIMED) if CLAIMED[p]["engine"] == "sim-crash"],
          "kind_free_text": "the same simulator plus crash-image exploration over the recorded backend op log (record once, crash many), nested crashes in recovery"},
     ],
